@@ -24,7 +24,7 @@ PROPS = {
                 assumptions=[E_ENV, "hand-over messages are delivered with caller = previous holder (as the repository's own cross-shard test does)"]),
     "C04": dict(profiles=[P("gates", 3000, 400000)], fields=["status", "diff"], assumptions=[E_ENV]),
     "C05": dict(profiles=[P("frame", 3000, 300000)], fields=["status", "diff"], assumptions=[E_ENV]),
-    "C06": dict(profiles=[P("gas", 4000, 400000)], fields=["status", "gastotal"],
+    "C06": dict(profiles=[P("gas", 3000, 400000, seeds_quick=2)], fields=["status", "gastotal"],
                 assumptions=["gas-schedule costs are non-zero and < 2^32, argument bytes < 2^31 (as the property states)"]),
     "C07": dict(profiles=[P("nonces", 3000, 300000)], fields=["status", "diff", "ret", "xf"],
                 assumptions=[E_ENV, "single-creator discipline; counter < 2^64-1; exactly-once delivery of hand-over messages"]),
@@ -43,13 +43,13 @@ PROPS = {
     # xf: the hand-over message carries the counter the next holder will hold (the "counter ≥ issued nonces" clause)
     "C15": dict(profiles=[P("supply", 2000, 200000), P("transfers", 2000, 200000), P("nonces", 1000, 100000)],
                 fields=["status", "diff", "xf"], assumptions=[E_ENV]),
-    "C16": dict(profiles=[P("gas", 4000, 400000)], fields=["status", "gas", "xf"],
+    "C16": dict(profiles=[P("gas", 3000, 400000, seeds_quick=2)], fields=["status", "gas", "xf"],
                 assumptions=["gas maps never spell one field in two different cases (mapstructure would depend on map order)"]),
     "C17": dict(profiles=[P("faults", 3000, 200000)], fields=["status", "deps"], strict=True,
                 assumptions=["storage reads and the pause lookup are fail-soft by interface design (excluded by the property)"]),
     # registry binding is behavioural: every name must price and behave as the function of that name right after the
     # factory built the container (before any schedule change) -> the gas profile (distinct prime costs) runs here too
-    "C18": dict(profiles=[P("activation", 4000, 40000), P("gas", 2500, 160000), P("supply", 1000, 40000)],
+    "C18": dict(profiles=[P("activation", 4000, 40000), P("gas", 2000, 160000, seeds_quick=2), P("supply", 1000, 40000)],
                 fields=["status", "gas", "diff"], oracle_props=["C18", "C16"]),
     "C19": dict(profiles=[], fields=["status"],
                 assumptions=["a data race is an event of the Go memory model no Lean model exhibits (partial): the lock discipline is decided in Lean on regenerated lock facts, races are searched with -race stress"]),
